@@ -61,10 +61,20 @@ def run_shard(desc, acc, tier):
             check_cfg(k, tier, acc)
 
 
+class DocumentChanged(Exception):
+    pass
+
+
 def roundtrip(obj, loader):
+    """to_json -> json text -> ONE dictionary object that is loaded twice (a kept document); the second load is what gets judged, and
+    the loader may not have consumed or changed the caller's dictionary in between."""
     doc = obj.to_json()
     txt = json.dumps(doc)
-    return loader(json.loads(txt)), json.loads(txt)
+    d = json.loads(txt)
+    loader(d)
+    if d != json.loads(txt):
+        raise DocumentChanged("from_json changed the caller's document: " + json.dumps(d)[:200])
+    return loader(d), json.loads(txt)
 
 
 def json_ids(doc, out=None):
